@@ -669,7 +669,13 @@ func c12Fill(c *Ctx, rule string) {
 							}
 						}
 						nx := p.Next[phi]
-						if !ToPoly(nx).Equal(ToPoly(lv).Add(ToPoly(lv), 1)) {
+						// i += copy(s[i:], s[:i]): copy reports min(len-i, i) - i itself (a doubling) in every round but
+						// the last, where it reports what was left and i reaches len: the loop ends with the slice filled
+						byCopy := false
+						if cp != nil && cp.Res != nil && n == 1 {
+							byCopy = ToPoly(nx).Equal(ToPoly(lv).Add(polyAtom(cp.Res), 1))
+						}
+						if !byCopy && !ToPoly(nx).Equal(ToPoly(lv).Add(ToPoly(lv), 1)) {
 							ok, why = false, "i is not doubled: "+nx.String()
 						}
 					} else {
